@@ -151,6 +151,16 @@ def run(ck):
                         else:
                             ck.undecided("C09.R3", inst + ":Re(w1*w2)", asite, "weights are not complex pairs")
                     ck.check(isinstance(r, VTens) and r.shape == ("B",), "C09.R3", inst + ":shape", asite, "result shape %s, expected (B,)" % (getattr(r, "shape", None),))
+    # ------------------------------------------------------------------ R4 history independence (two-call protocol)
+    from .history import check_history
+
+    for cls in api.STATES:
+        def mk(it, cls=cls):
+            s = make_state(it, cls)
+            return (s, api.observable_instances(it, prog)["SWAP/list-region"], tens(it, "samples", ("B", "nv")))
+
+        check_history(ck, "C09.R4", "SWAP/%s" % cls, asite, mk, lambda it, c: call(it, c[1], "apply", c[0], c[2]), max_paths=40)
+    ck.require_min("C09.R4", 3)
     ck.require_min("C09.R1", 27)
     ck.require_min("C09.R2", 10)
     ck.require_min("C09.R3", 40)
